@@ -16,11 +16,13 @@ void Log(const char *fmt, ...) __attribute__((format(printf, 1, 2)));  // one JS
 void NoteWrite();                                  // shared state changed (unblocks spinners)
 void YieldPoint();                                 // explicit scheduling point
 void RegisterLoc(const void *p, size_t len, const char *name, const char *cls);
-void TrackAllocSize(size_t sz, const char *cls, bool aligned);   // log/quarantine these allocations
+void TrackAllocSize(size_t sz, const char *cls, bool aligned);   // log/quarantine these allocations (sz 0 = any size)
+void TrackMainThread(bool on);                     // also track allocations made outside virtual threads
 bool IsFreed(const void *p);                       // inside a freed (quarantined) tracked block?
 std::string LocName(const void *p);                // registered / tracked name, or hex
 int LiveTracked(const char *cls);                  // number of live tracked blocks of a class
-void SetPostYieldPoint(const char *point_name);    // (unused hook for future use)
+void SetNoBranch(bool on);                         // steps taken while on are not branching points of the DFS
+void BlockUntil(const std::function<bool()> &pred);  // harness-level wait (barrier, hand-over)
 
 // ---- program / driver interface -----------------------------------------------------------
 struct Op {
@@ -29,9 +31,9 @@ struct Op {
 struct Program {
   std::string name;
   std::vector<std::string> params;           // free-form header fields
-  std::vector<std::vector<Op>> threads;      // virtual threads 1..n
-  std::vector<Op> final_ops;                 // run by an extra thread after all others exited
-  std::vector<Op> init_ops;                  // run by an extra thread before any other starts
+  std::vector<std::vector<Op>> threads;      // virtual threads 1..n in textual order
+  std::vector<int> phase;                    // phase[i] of threads[i]: a thread starts only after every
+                                             // thread of an earlier phase has exited ("|<" = 0, "|" = 1, "||" opens 2, 3, ...)
   std::string text;                          // the original line
 };
 
